@@ -333,6 +333,42 @@ class Expander:
                 continue
             self.local_rewrites.append({'fn': label, 'regex': rx, 'replacement': rep, 'count': n})
 
+        if 'strmatch' in sections:
+            # rule E4-strmatch: `match x.as_str() { "a" => e1, "b" => e2, _ => e3 }` -> `if vx_str_eq(&x, "a") { e1 } else if
+            # vx_str_eq(&x, "b") { e2 } else { e3 }` (Verus gives string-literal patterns no meaning; first match wins in both)
+            while True:
+                tmp = Source('<body>', body_text)
+                done = True
+                for m in tmp.find_code(r'\bmatch\b', 0, len(body_text)):
+                    try:
+                        scrut, mo, mc, arms = tmp.match_arms(m.start())
+                    except Exception:
+                        continue
+                    if not scrut.endswith('.as_str()'):
+                        continue
+                    # (string literals are masked out by the scanner: take the pattern text from the end of the previous arm)
+                    pats, prev_ = [], mo + 1
+                    for (ps, pe, bs, be, blk) in arms:
+                        pats.append(re.sub(r'(?m)//[^\n]*$', '', body_text[prev_:pe]).strip().lstrip(',').strip())
+                        prev_ = be
+                    if not pats or pats[-1] != '_' or not all(re.fullmatch(r'"[^"]*"', x) for x in pats[:-1]):
+                        continue
+                    var = scrut[:-len('.as_str()')]
+                    parts = []
+                    for (ps, pe, bs, be, blk), pat in zip(arms, pats):
+                        btxt = body_text[bs:be]
+                        if not blk:
+                            btxt = '{ ' + btxt + ' }'
+                        if pat == '_':
+                            parts.append(btxt)
+                        else:
+                            parts.append('if vx_str_eq(&%s, %s) %s else ' % (var, pat, btxt))
+                    body_text = body_text[:m.start()] + ''.join(parts) + body_text[mc + 1:]
+                    self.rules_fired['E4-strmatch'] = self.rules_fired.get('E4-strmatch', 0) + 1
+                    done = False
+                    break
+                if done:
+                    break
         # rule E3b: `stub-block: <regex>` - the `{...}` block that follows the match is replaced by a call to
         # vx_unproved_branch() (ensures false): that branch is ASSUMED, listed as unproved in the evidence
         for ln in sections.get('stub-block', []):
